@@ -229,7 +229,12 @@ class SymExec:
             pp = "%s::promoted[%d]" % (self.fn if self.body.kind != "Promoted" else self.body.d.get("parent"), o["promoted"])
             pse = self.eng.run(pp)
             if pse is not None and pse.ret is not None:
-                return pse.ret
+                r = pse.ret
+                if r[0] == "ref" and pse.final_states:
+                    # a promoted returns the address of its own temporary: take the value
+                    fs = next(iter(pse.final_states.values()))
+                    return ("ref", pse.read(fs, r[1]), False)
+                return r
             return ("unknown", "promoted")
         ty = self.fb.ty(v["ty"]).s if "ty" in v else "?"
         if "int" in v:
